@@ -494,6 +494,34 @@ theorem cdataOnlyOnTop_count (b : BState) (h : cdataOnlyOnTop b = true) :
     rw [List.filter_cons]
     split <;> simp [this]
 
+theorem allElt_kindsOk : ∀ (l : List FrameKind), allEltKinds l = true → kindsOk l = true := by
+  intro l
+  induction l with
+  | nil => intro _; rfl
+  | cons a r ih =>
+    intro ha
+    simp only [allEltKinds, List.all_cons, Bool.and_eq_true, Bool.not_eq_true'] at ha
+    cases r with
+    | nil => rfl
+    | cons c r' =>
+      simp only [kindsOk, ha.1, Bool.false_and, Bool.not_false, Bool.true_and]
+      exact ih (by simpa [allEltKinds] using ha.2)
+
+/-- `cdataOnlyOnTop` is stronger than `stackOk`. -/
+theorem cdataTop_kindsOk (l : List FrameKind) (h : cdataTopKinds l = true) : kindsOk l = true := by
+  cases l with
+  | nil => rfl
+  | cons a r =>
+    have hr := cdataTop_tail a r h
+    cases r with
+    | nil => rfl
+    | cons c r' =>
+      have hc : isCdataKind c = false := by
+        simp only [allEltKinds, List.all_cons, Bool.and_eq_true, Bool.not_eq_true'] at hr
+        exact hr.1
+      simp only [kindsOk, hc, Bool.and_false, Bool.not_false, Bool.true_and]
+      exact allElt_kindsOk _ hr
+
 /-! #### No markup inside CDATA nodes -/
 
 end Wbxml.Lemmas.XmlPrint
